@@ -135,7 +135,7 @@ def run_shard(shard, tier, seed):
         hist = []
 
         def body(rnd, mode=mode, e=e, hist=hist):
-            b = I.gen_bytes(rnd, mode, e)
+            b = I.gen_x86_modrm(rnd, mode) if (I.is_x86 and rnd.random() < 0.25) else I.gen_bytes(rnd, mode, e)
             suf = gen_suffixes(rnd)
             st_, bucket, detail, info = check(I, b, mode, e, suf)
             case = dict(isa=I.name, mode=mode, endian=e, bytes=b.hex(), suffixes=[t.hex() for t in suf],
